@@ -22,7 +22,7 @@ WITNESS = 'WITNESS reachable'
 class Job:
     def __init__(self, name, sources, function, defs=(), unwind=None, unwindset=(), flags=(), timeout=120,
                  mem_gb=8, malloc_may_fail=False, object_bits=None, depth=None, drop=(), funcs=(), nontrivial=True,
-                 no_flags=()):
+                 no_flags=(), ub_notes=()):
         self.name = name
         self.sources = list(sources)
         self.function = function
@@ -37,6 +37,7 @@ class Job:
         self.depth = depth
         self.funcs = list(funcs)      # real functions this harness encodes (evidence)
         self.no_flags = set(no_flags)
+        self.ub_notes = list(ub_notes)   # regexes on 'func|desc': standard-level UB the host gives a benign meaning to -> UB-NOTE, no verdict effect
 
 
 RE_RES = re.compile(r'^\[(?P<id>[^\]]+)\]\s+(?:line (?P<line>\d+)\s+)?(?P<desc>.*):\s+(?P<st>SUCCESS|FAILURE|UNKNOWN)$')
@@ -95,6 +96,9 @@ def run_job(build, job, trace=False):
     unknown = [p for p in props if p['status'] == 'UNKNOWN']
     wit = [p for p in failed if WITNESS in p['desc']]
     real = [p for p in failed if WITNESS not in p['desc']]
+    notes = [p for p in real if any(re.search(rx, '%s|%s' % (p.get('func'), p['desc'])) for rx in job.ub_notes)]
+    real = [p for p in real if p not in notes]
+    res['ub_notes'] = notes
     res['witness'] = 'reachable' if wit else 'UNREACHABLE'
     res['failed'] = real
     if trace:
@@ -124,6 +128,11 @@ def run_jobs(build, jobs, report, workers=None, on_violation=None):
         report.functions.update(job.funcs)
         report.queries += r.get('n_props', 0)
         report.solver_s += r.get('solver_s', 0)
+        for p in r.get('ub_notes', []):
+            msg = 'UB-NOTE %s: %s in %s' % (job.name, p['desc'], p.get('func'))
+            if msg not in report.extra.setdefault('ub_notes', []):
+                report.extra['ub_notes'].append(msg)
+                print(msg, flush=True)
         for nb in r.get('no_body', []):
             report.assume('function without body treated as returning an arbitrary value: ' + nb)
         if r['verdict'] == 'held':
